@@ -78,6 +78,13 @@ THEOREMS = [
     'C17.nyeOf_is_leviCivita_contraction', 'C17.slipVector_perm', 'C17.solveNormal_perm', 'C17.nye_perm',
     'C17.slipVectorCall_rigid', 'C17.DObj.api_differences', 'C17.SObj.api_constant_G', 'C17.SObj.api_homogeneous',
     'C17.det_mul3', 'C17.invariant3_eq_det', 'C17.invariant1_frame', 'C17.invariant2_eq', 'C17.invariants_frame',
+    # round 6, part 2 — disregistry under renumbering (no hypothesis) and under translation with rtol = 0; displacement() as a
+    # whole under translation / renumbering; slip_vector and asdict as whole calls; their source obligations
+    'C17.disregistry_renumbered', 'C17.disregistry_translated_rtol0', 'C17.displacementCall_translated',
+    'C17.displacementCall_renumbered', 'C17.unique_perm', 'C17.sortK_perm', 'C17.unique_shift', 'C17.interp_shift',
+    'C17.keyOf_isSome_iff', 'C17.planKeys_accepts_iff', 'C17.asdictPlan_default', 'C17.slipVectorEntry_refuses_iff',
+    'C17.SObj.readsUntil_coherent', 'C17.SObj.asdict_spec', 'C17.SObj.asdict_no_reference',
+    'C17.gen_slipVectorRefusals_eq_model', 'C17.gen_asdictKeys_eq_model', 'C17.gen_pin_asdictLoop', 'C17.gen_pin_saveLoop',
 ]
 PARTIAL = {
     'matchPQ_pairing': 'the conflict resolution of match_pq is proved for arbitrary lists (one q per p, the winner is the q closest '
@@ -2388,10 +2395,54 @@ def _strain_sequence(ctx, caseseed, it, tie):
             if r < 0.45 or step == nops - 1:
                 # ---- reads --------------------------------------------------------------------------
                 names = rng.sample(_SPROPS, rng.randint(1, 4))
-                if rng.random() < 0.2:
-                    names = [x for x in _SPROPS if x[0] not in ('G', 'rotation')]          # asdict() order
-                    note('asdict()')
-                    got = _guard(lambda: st.asdict())
+                if rng.random() < 0.3:
+                    # asdict(properties): None (six default keys), a list (any order, G and rotation allowed), one name as a
+                    # string, a list with an UNKNOWN name somewhere (AssertionError after the keys before it were read)
+                    form = rng.random()
+                    if form < 0.35:
+                        props = None
+                    else:
+                        props = [x[0] for x in rng.sample(_SPROPS, rng.randint(1, 4))]
+                        if form > 0.7:
+                            props.insert(rng.randrange(len(props) + 1), rng.choice(['Strain', 'g', 'invariant', 'Nye_tensor',
+                                                                                     'strain_invariant_1', 'angular_velocity', 'strain ']).strip() or 'x')
+                        elif len(props) == 1 and rng.random() < 0.5:
+                            props = props[0]
+                    plist = None if props is None else ([props] if isinstance(props, str) else list(props))
+                    if tie:
+                        pl_ = ask('asdictplan 0' if plist is None else f'asdictplan 1 {len(plist)} ' + ' '.join(plist)).split()
+                        planned, bad_key = pl_[1:], pl_[0] == 'assert'
+                    else:
+                        ok_ = {a_: m_ for a_, m_ in _SPROPS}
+                        src_ = ['strain', 'invariant1', 'invariant2', 'invariant3', 'angularvelocity', 'nye'] if plist is None else plist
+                        planned, bad_key = [], False
+                        for k_ in src_:
+                            if k_ not in ok_:
+                                bad_key = True
+                                break
+                            planned.append(ok_[k_])
+                    back_ = {m_: a_ for a_, m_ in _SPROPS}
+                    names = [(back_[m_], m_) for m_ in planned]
+                    note(f'asdict({props!r})')
+                    got = _guard(lambda: st.asdict() if props is None else st.asdict(props))
+                    ctx.stats.case('sobj:asdict', (caseseed, it, step, repr(props)))
+                    if bad_key:
+                        # the reads before the unknown key happen (and are cached) in the model too; no values to compare
+                        failed_ = False
+                        if tie:
+                            for _, m_ in names:
+                                failed_ = failed_ or ask(f'so read {m_} {seltok}').startswith('err:')
+                        else:
+                            failed_ = cur['A'] is None and bool(names)
+                        want_ = 'ValueError' if failed_ else 'AssertionError'
+                        if not isinstance(got, _Raised) or not got.text.startswith(want_):
+                            report('sobj:asdict:refusal', f'asdict({props!r}): expected {want_} (unknown property name'
+                                   f'{" after a read that cannot be solved" if failed_ else ""}), got '
+                                   f'{got.text if isinstance(got, _Raised) else "a dict with keys " + str(list(got))}')
+                        continue
+                    if not isinstance(got, _Raised) and list(got) != [a_ for a_, _ in names]:
+                        report('sobj:asdict:keys', f'asdict({props!r}) returned the keys {list(got)}, expected {[a_ for a_, _ in names]}')
+                        continue
                     vals = [(_Raised(Exception(got.text)) if isinstance(got, _Raised) else got[a_]) for a_, _ in names]
                 else:
                     vals = []
@@ -3396,6 +3447,21 @@ def _sources(ctx, caseseed, it, tie):
             report('sources:slip_vector', f'{call}: slip vector of atom {k} is {got[k].tolist()}; the list to use is the one of '
                    f'{exp}{"=" if exp != "attr" else "ibute"} ({base["lists"][role[exp]]}): {int(across[k])} neighbours across x '
                    f'{rel[k].tolist()} = {want[k].tolist()}', combo=[nb, cu, att], atom=k)
+    # slip_vector with systems of DIFFERENT size: ValueError for every combination (the count is checked before the block)
+    short_ = am.System(atoms=am.Atoms(atype=1, pos=s1w.atoms.pos[:-1].copy()), box=s1w.box, pbc=s1w.pbc)
+    for nb, cu, att in combos:
+        exp = ctx.driver.ask(f'slipentry {n} {n - 1} {int(nb)} {int(cu)} {int(att)}') if tie else 'err:value'
+        x0 = with_attr(s0, att, L0)
+        kw = {}
+        if nb:
+            kw['neighbors'] = obj(s0, role['neighbors'], L0)
+        if cu:
+            kw['cutoff'] = cutv
+        got = _guard(lambda: am.defect.slip_vector(x0, short_, **kw))
+        if not isinstance(got, _Raised) or _err_class(got) != exp:
+            report('sources:slip_vector:count', f'slip_vector(system_0 [{n} atoms], system_1 [{n - 1} atoms]' + ''.join(f', {k}=…' for k in kw)
+                   + f'): expected {"ValueError" if exp == "err:value" else exp}, got {got.text if isinstance(got, _Raised) else "values"}',
+                   combo=[nb, cu, att])
     # differential displacement: function form (8 combinations) and class (the attribute is never a source) --------
     I = J = None
     if it % 2 == 0:
@@ -4531,6 +4597,41 @@ def _translate():
     pick(func(st, 'build_p_vectors', 'Strain'), 'buildP', 'Strain.build_p_vectors')
     pick(func(nt, 'nye_tensor'), 'nyeTensor', 'nye_tensor')
     pick(func(ddf, 'differential_displacement'), 'ddFunction', 'differential_displacement')
+
+    # slip_vector: the atom-count refusal and where it stands relative to the neighbour block
+    f = func(sv, 'slip_vector')
+    bs = body(f)
+    cnt = [k for k, s_ in enumerate(bs) if isinstance(s_, ast.If) and ast.unparse(s_.test) == 'system_0.natoms != system_1.natoms']
+    blk = [k for k, s_ in enumerate(bs) if isinstance(s_, ast.If) and ast.unparse(s_.test) == 'neighbors is not None']
+    need(len(cnt) == 1 and len(blk) == 1 and len(bs[cnt[0]].body) == 1 and isinstance(bs[cnt[0]].body[0], ast.Raise)
+         and ast.unparse(bs[cnt[0]].body[0].exc).startswith('ValueError(') and not bs[cnt[0]].orelse, 'slip_vector: atom-count refusal')
+    out.append('/-- `slip_vector`: `if system_0.natoms != system_1.natoms: raise ValueError` and the neighbour block, in source order -/')
+    out.append('def slipVectorRefusals {L : Type} (n0 n1 : Nat) (neighbors cutoff attr : Option L) : Except NbrErr L :=')
+    if cnt[0] < blk[0]:
+        out.append('  if n0 ≠ n1 then .error .value else pick_slipVector neighbors cutoff attr')
+    else:
+        out.append('  match pick_slipVector neighbors cutoff attr with\n  | .error e => .error e\n  | .ok l => if n0 ≠ n1 then .error .value else .ok l')
+    out.append('')
+
+    # Strain.asdict / save_to_system: the accepted and the default keys, the loop
+    for meth, lean in (('asdict', 'asdict'), ('save_to_system', 'save')):
+        mb = body(func(st, meth, 'Strain'))
+        lists = {}
+        for s_ in mb:
+            if isinstance(s_, ast.Assign) and isinstance(s_.targets[0], ast.Name) and s_.targets[0].id in ('defaultkeys', 'allkeys'):
+                v = s_.value
+                if isinstance(v, ast.BinOp) and isinstance(v.op, ast.Add) and isinstance(v.right, ast.Name) and v.right.id in lists:
+                    lists[s_.targets[0].id] = list(ast.literal_eval(v.left)) + lists[v.right.id]
+                else:
+                    lists[s_.targets[0].id] = list(ast.literal_eval(v))
+        need(set(lists) == {'defaultkeys', 'allkeys'} and all(isinstance(x, str) for l_ in lists.values() for x in l_), f'{meth}: key lists')
+        out.append(f'/-- `Strain.{meth}`: `defaultkeys`, `allkeys` -/')
+        out.append(f'def {lean}Default : List String := [' + ', '.join(_q(x) for x in lists['defaultkeys']) + ']')
+        out.append(f'def {lean}All : List String := [' + ', '.join(_q(x) for x in lists['allkeys']) + ']')
+        rest = [s_ for s_ in mb if not (isinstance(s_, ast.Assign) and isinstance(s_.targets[0], ast.Name)
+                                        and s_.targets[0].id in ('defaultkeys', 'allkeys', 'results'))]
+        pins.append((lean + 'Loop', f'Strain.{meth}: default handling and the loop over the keys', [ast.unparse(s_) for s_ in rest]))
+    out.append('')
 
     # ------------------------------------------------------------------ slip_vector.pyx
     f = func(sv, 'slip_vector_c')
